@@ -688,7 +688,13 @@ fn stress_cleanup(n_services: usize, n_threads: usize, pause_us: u64, seed: u64)
         }));
     }
     std::thread::sleep(Duration::from_millis(10 + seed % 10));
-    let shut = daemon.shutdown();
+    let mut shut = daemon.shutdown();
+    let mut tries = 0;
+    while matches!(shut, Err(mdns_sd::Error::Again)) && tries < 10000 {
+        std::thread::sleep(Duration::from_micros(100));
+        shut = daemon.shutdown();
+        tries += 1;
+    }
     let shut_ok = match shut {
         Ok(rx) => matches!(rx.recv_timeout(Duration::from_millis(10000)), Ok(DaemonStatus::Shutdown)),
         Err(_) => false,
